@@ -38,6 +38,8 @@ class ConcreteOps:
     def eq(self, a, b, tol=None):
         if a is None or b is None: return a is None and b is None
         a, b = self.num(a), self.num(b)
+        if a != a and b != b: return True          # nan on both sides (domain errors of log/sqrt)
+        if a == b: return True                     # covers equal infinities
         tol = self.RTOL if tol is None else tol
         return abs(a - b) <= tol * max(1.0, abs(a), abs(b))
     def ge(self, a, b):
@@ -61,14 +63,22 @@ class ConcreteOps:
         try: fn()
         except Exception: return True
         return False
-    def log10(self, x): return math.log10(x)
-    def ln(self, x): return math.log(x)
+    def log10(self, x):
+        import numpy
+        with numpy.errstate(all='ignore'): return float(numpy.log10(float(x)))
+    def ln(self, x):
+        import numpy
+        with numpy.errstate(all='ignore'): return float(numpy.log(float(x)))
     def exp(self, x): return math.exp(x)
-    def pow(self, b, e): return b ** e
+    def pow(self, b, e):
+        try: return b ** e
+        except (ZeroDivisionError, OverflowError): return float('nan')
     def sin(self, x): return math.sin(x)
     def cos(self, x): return math.cos(x)
     def tan(self, x): return math.tan(x)
-    def sqrt(self, x): return math.sqrt(x)
+    def sqrt(self, x):
+        import numpy
+        with numpy.errstate(all='ignore'): return float(numpy.sqrt(float(x)))
     def ite(self, c, a, b): return a if c else b
     def truth(self, x): return bool(x)
     def lt(self, a, b): return self.num(a) < self.num(b)
@@ -79,7 +89,16 @@ class ConcreteOps:
         import numpy
         return numpy.array([float(x) for x in items])
     def lit(self, x):
-        return str(int(x)) if float(x) == int(x) else repr(float(x))
+        if float(x) == int(x): return str(int(x))
+        r = repr(float(x))
+        if 'e' in r:
+            import decimal
+            r = format(decimal.Decimal(r), 'f')
+        return r
+    def veq(self, a, b):
+        isb = lambda x: type(x).__name__ in ('bool', 'bool_')
+        if isb(a) != isb(b): return False
+        return bool(a) == bool(b) if isb(a) else self.eq(a, b)
 '''
 _ns = {}
 exec(CONCRETE_OPS_SRC, _ns)
@@ -221,6 +240,16 @@ class SymOps:
 
     def arr(self, items):
         return core.symarr(list(items))
+
+    def veq(self, a, b):
+        """value equality where a value is either a truth value or a number (a bool never equals a number here)"""
+        ab = isinstance(a, (bool, SymBool)) or type(a).__name__ == 'bool_'
+        bb = isinstance(b, (bool, SymBool)) or type(b).__name__ == 'bool_'
+        if ab != bb:
+            return False
+        if ab:
+            return Claim(core.lift_bool(a) == core.lift_bool(b))
+        return self.eq(a, b)
 
     def lit(self, x):
         """numeric literal text for x: a sentinel numeral that the module-local float/int stubs map back to the proxy"""
@@ -382,9 +411,15 @@ def run_scenarios(scens, patches_cm, timeout_ms=10000, max_paths=4000, wall_s=12
                             cnts = [vars_[n].t for n, k in scen.inputs.items() if k == 'count']
                             dom = [z3.Or(*[c == i for i in range(1, 9)]) for c in cnts]
                             tries = []
+                            # prefer small integral inputs: they replay without float artefacts (complex powers, overflow)
+                            small = [z3.Or(*[vars_[n].t == i for i in (2, 3, 1, 4, 0, 5)]) for n, k in scen.inputs.items() if k == 'real']
                             if claim.robust_neg is not None:
+                                if small:
+                                    tries.append(dom + small + [claim.robust_neg])
                                 tries.append(dom + [claim.robust_neg])
                                 tries.append([claim.robust_neg])
+                            if small:
+                                tries.append(dom + small + [z3.Not(claim.t)])
                             if dom:
                                 tries.append(dom + [z3.Not(claim.t)])
                             for extra_c in tries:
@@ -416,7 +451,11 @@ def run_scenarios(scens, patches_cm, timeout_ms=10000, max_paths=4000, wall_s=12
                 try:
                     claims = run(V(**vals, **scen.consts), ConcreteOps())
                     bad = [l for l, c in claims if not c]
+                except (ZeroDivisionError, OverflowError):
+                    continue        # sample outside the assumed domain (divisor != 0, finite results)
                 except Exception as e:  # proved not to raise, yet raises concretely
+                    if 'complex' in str(e) or 'math domain' in str(e):
+                        continue    # negative base with fractional exponent: outside the real-valued claim
                     bad = [f"raised {type(e).__name__}: {e}"]
                 if bad:
                     out['inconclusive'].append(
